@@ -13,6 +13,7 @@ import (
 	_ "verif/checks/c03"
 	_ "verif/checks/c07"
 	_ "verif/checks/c09"
+	_ "verif/checks/c10"
 	_ "verif/checks/c12"
 	_ "verif/checks/c13"
 	_ "verif/checks/c14"
